@@ -103,24 +103,19 @@ Proof.
   apply (int_spec_bounds _ _ _ _ _ H). intros T. congruence.
 Qed.
 
-(* the witness, for a translation that does drop zero bounds (vacuous once the flag computes to false) *)
-Definition decl_min0 := mk_int_decl None (Some false) (Some 0) None.     (* Optional(int, min=0) *)
-Definition decl_max0 := mk_int_decl None (Some false) None (Some 0).     (* Optional(int, max=0) *)
+(* the translation of the current /repo does not drop zero bounds (repaired in /repo commit 2abc421): the flag computes to false *)
+Lemma int_flag_false : int_zero_bound_ignored = false.
+Proof. vm_compute. reflexivity. Qed.
 
-Lemma decl_min0_ok : decl_ok true decl_min0.
-Proof. unfold decl_ok, decl_min0; cbn [d_size d_unsigned d_min d_max type_lo type_hi eff_size is_uns]. repeat split; try lia; try (intros [E _]; discriminate). Qed.
-Lemma decl_max0_ok : decl_ok true decl_max0.
-Proof. unfold decl_ok, decl_max0; cbn [d_size d_unsigned d_min d_max type_lo type_hi eff_size is_uns]. repeat split; try lia; try (intros [E _]; discriminate). Qed.
+Theorem int_accept uint64 d c v :
+  init_of uint64 d = Ok c -> (int_validate (ic_min c) (ic_max c) v = Ok v <-> in_bounds d v).
+Proof. exact (int_accept_full_if_fixed uint64 d c v int_flag_false). Qed.
 
-Theorem int_zero_bound_refuted :
-  int_zero_bound_ignored = true ->
-  exists d v, decl_ok true d /\ accepts_int true d v = true /\ ~ in_bounds d v.
+Theorem int_reject uint64 d c v :
+  init_of uint64 d = Ok c -> ~ in_bounds d v -> int_validate (ic_min c) (ic_max c) v = Err ValueError.
 Proof.
-  unfold int_zero_bound_ignored. intros H. apply orb_true_iff in H. destruct H as [H|H].
-  - exists decl_min0, (-5). split; [apply decl_min0_ok | split; [exact H |]].
-    unfold in_bounds, decl_min0; cbn [d_min ge_opt]. lia.
-  - exists decl_max0, 5. split; [apply decl_max0_ok | split; [exact H |]].
-    unfold in_bounds, decl_max0; cbn [d_max le_opt]. lia.
+  intros H Hn. destruct (int_validate_cases (ic_min c) (ic_max c) v) as [[E Hb]|[E _]]; [|exact E].
+  exfalso. apply Hn. apply (int_accept _ _ _ _ H). exact E.
 Qed.
 
 (* ------------------------------------------------------------------------------ RealConverter / DecimalConverter *)
@@ -162,18 +157,13 @@ Theorem real_accept_full_if_fixed mn mx v :
   (real_validate mn mx v = Ok v <-> num_in_bounds mn mx v).
 Proof. intros F. apply real_validate_ok_iff_gen. intros T. congruence. Qed.
 
-Theorem real_zero_bound_refuted :
-  real_zero_bound_ignored = true ->
-  exists mn mx v, v <> NNan /\ not_nan_opt mn /\ not_nan_opt mx /\ accepts_real mn mx v = true /\ ~ num_in_bounds mn mx v.
-Proof.
-  unfold real_zero_bound_ignored. intros H. apply orb_true_iff in H. destruct H as [H|H].
-  - exists (Some (NFin 0 1)), None, (NFin (-1) 1).
-    split; [discriminate|]. split; [exact I|]. split; [exact I|]. split; [exact H|].
-    unfold num_in_bounds, num_ge_opt, num_le. lia.
-  - exists None, (Some (NFin 0 1)), (NFin 1 1).
-    split; [discriminate|]. split; [exact I|]. split; [exact I|]. split; [exact H|].
-    unfold num_in_bounds, num_le_opt, num_le. lia.
-Qed.
+Lemma real_flag_false : real_zero_bound_ignored = false.
+Proof. vm_compute. reflexivity. Qed.
+
+Theorem real_accept mn mx v :
+  v <> NNan -> not_nan_opt mn -> not_nan_opt mx ->
+  (real_validate mn mx v = Ok v <-> num_in_bounds mn mx v).
+Proof. exact (real_accept_full_if_fixed mn mx v real_flag_false). Qed.
 
 (* NaN is never within bounds, whatever the translated comparison code does with it *)
 Lemma nan_not_in_bounds mn mx : (mn <> None \/ mx <> None) -> ~ num_in_bounds mn mx NNan.
@@ -403,26 +393,23 @@ Section Attr.
 End Attr.
 
 (* end to end for an int attribute: Required(int, <declaration>, py_check=...) *)
-Theorem required_int_except_known uint64 d c chk nullable val r :
-  init_of uint64 d = Ok c -> ~ zero_bound d ->
+Theorem required_int uint64 d c chk nullable val r :
+  init_of uint64 d = Ok c ->
   (required_validate (int_validate (ic_min c) (ic_max c)) chk (fun _ => false) nullable false false false val = Ok r <->
    exists v, val = Some v /\ in_bounds d v /\ check_ok chk v /\ r = Some v).
 Proof.
-  intros Hc Hz. rewrite required_accepts. split.
+  intros Hc. rewrite required_accepts. split.
   - intros (v & v' & E0 & E1 & E2 & _ & E4).
     destruct (int_validate_cases (ic_min c) (ic_max c) v) as [[E H]|[E H]]; rewrite E in E1; [|discriminate].
     injection E1 as E1. subst v'. exists v. split; [assumption | split; [| split; assumption]].
-    apply (int_accept_except_known _ _ _ _ Hc Hz). exact E.
+    apply (int_accept _ _ _ _ Hc). exact E.
   - intros (v & E0 & E1 & E2 & E3). exists v, v. split; [assumption | split; [| split; [assumption | split; [reflexivity | assumption]]]].
-    apply (int_accept_except_known _ _ _ _ Hc Hz). exact E1.
+    apply (int_accept _ _ _ _ Hc). exact E1.
 Qed.
 
-(* non-vacuity *)
+(* non-vacuity: size=16, min=0, max=300 is accepted as a declaration, accepts 0 and 300, rejects -1 and 301 *)
 Example c08_nonvacuous_int :
-  exists c, init_of true (mk_int_decl (Some 16) (Some false) (Some (-5)) (Some 300)) = Ok c
-            /\ int_validate (ic_min c) (ic_max c) 300 = Ok 300 /\ int_validate (ic_min c) (ic_max c) 301 = Err ValueError
-            /\ ~ zero_bound (mk_int_decl (Some 16) (Some false) (Some (-5)) (Some 300)).
-Proof.
-  eexists. split; [vm_compute; reflexivity|]. split; [vm_compute; reflexivity|]. split; [vm_compute; reflexivity|].
-  unfold zero_bound; cbn. intros [[H _]|H]; discriminate.
-Qed.
+  exists c, init_of true (mk_int_decl (Some 16) (Some false) (Some 0) (Some 300)) = Ok c
+            /\ int_validate (ic_min c) (ic_max c) 0 = Ok 0 /\ int_validate (ic_min c) (ic_max c) 300 = Ok 300
+            /\ int_validate (ic_min c) (ic_max c) (-1) = Err ValueError /\ int_validate (ic_min c) (ic_max c) 301 = Err ValueError.
+Proof. eexists. repeat split; vm_compute; reflexivity. Qed.
